@@ -298,7 +298,10 @@ pub fn run_family(prop: &str, fam: &Family, deadline: Option<Instant>) -> Family
 /// E2-style: a confined game to fix-point (or turn bound) in lock-step with its three images.
 pub fn run_config(prop: &str, cfg: &Config, idx: u64) -> FamilyResult {
     let t0 = Instant::now();
-    let (board, _, _) = board_from_diagram(&cfg.diagram).unwrap();
+    let (mut board, _, _) = board_from_diagram(&cfg.diagram).unwrap();
+    if let Some(o) = &cfg.setup {
+        board = crate::families::board_of_setup(o);
+    }
     let family = format!("E2x4 {} — in lock-step with its 3 images", cfg.name);
     let mut ctx = LCtx { prop, explorer: "E2x4", family: family.clone(), idx, root_board: board, root_gold: cfg.gold_to_move, config: crate::e2::config_json(cfg), stats: Stats::default(), query: "", path: vec![] };
     let mut complete = true;
